@@ -8,6 +8,7 @@ from datetime import timedelta
 import numpy as np
 from hypothesis import strategies as st
 
+from vf import scenario_kit as kit  # noqa: F401  (Ray double first: scheduled events log through a Ray actor)
 from vf.oracles import kepler
 from vf.runner import Prop, Violation
 from vf.strategies import orbits as so
@@ -19,7 +20,8 @@ PROP = Prop(
         "Hypothesis: bound orbits a in [6600,50000] km, e <= 0.7 with perigee >= 200 km by construction, any inclination; duration "
         "log-uniform in [1 s, 1 day]; split point f*T with f in {tiny, 0.5, U, 1-tiny}; batch size 1..13; output grids of 1..8 "
         "times; both integrators offered by the configuration (RK45, DOP853); two-body and perturbed dynamics (geopotential degree "
-        "<= 8, Sun/Moon, SRP, GR subsets); whole-second start-epoch shifts. Non-trivial = batch >= 2, or split strictly inside "
+        "<= 8, Sun/Moon, SRP, GR subsets); whole-second start-epoch shifts; in a third of the cases the dynamics object was used before "
+        "for a propagation that ended with a finite burn still on / after an impulse. Non-trivial = batch >= 2, or split strictly inside "
         "(0,T), or grid >= 3 points; distinct by rounded (a, e, i, T, K, f)."
     ),
     assumptions=[
@@ -46,11 +48,11 @@ def _durations():
 
 def _tb_cases():
     return st.builds(
-        lambda el, t, f, k, grid, meth, pert: {**el, "T": t, "f": f, "K": k, "grid": grid, "method": meth, "pert": pert},
+        lambda el, t, f, k, grid, meth, pert, hist: {**el, "T": t, "f": f, "K": k, "grid": grid, "method": meth, "pert": pert, "history": hist},
         so.elements(e_cap=0.7, min_perigee_alt=200.0), _durations(),
         st.one_of(st.sampled_from([1e-6, 0.5, 1 - 1e-6]), st.floats(0.01, 0.99)),
         st.sampled_from([1, 2, 3, 5, 13]), st.lists(st.floats(0.01, 0.99), min_size=0, max_size=7),
-        st.sampled_from(["RK45", "DOP853"]), st.lists(st.floats(-1, 1), min_size=6 * 12, max_size=6 * 12))
+        st.sampled_from(["RK45", "DOP853"]), st.lists(st.floats(-1, 1), min_size=6 * 12, max_size=6 * 12), st.sampled_from([0, 0, 0, 1, 1, 2]))
 
 
 def _state(c):
@@ -67,6 +69,27 @@ def _cmp(label, got, ref, rec, scale, what):
         raise Violation(label, f"{what}: |dr| = {dp:.3e} km, |dv| = {dv:.3e} km/s (tolerance {pt * scale:.1e} km, {vt * scale:.1e} km/s)")
 
 
+def _earlier_use(dyn, c, x0, rec):
+    """In a third of the cases the dynamics object has been used before, for a propagation with scheduled events that ended
+    while a finite burn was still on (or right after an impulse): what a propagation returns must depend on its arguments,
+    not on the object's history."""
+    mode = c.get("history", 0)
+    rec.label(("fresh_object", "used_before:burn_still_on", "used_before:impulse")[mode])
+    if mode == 0:
+        return
+    from functools import partial
+
+    from resonaate.dynamics.integration_events.finite_thrust import ScheduledFiniteBurn, eciBurn
+    from resonaate.dynamics.integration_events.scheduled_impulse import ScheduledECIImpulse
+    from resonaate.physics.time.stardate import ScenarioTime
+
+    if mode == 1:
+        ev = ScheduledFiniteBurn(ScenarioTime(10.0), ScenarioTime(500.0), partial(eciBurn, acc_vector=np.array([0.0, 2e-5, 0.0])), 1)
+    else:
+        ev = ScheduledECIImpulse(ScenarioTime(20.0), np.array([0.0, 0.01, 0.0]), 1)
+    dyn.propagate(0.0, 60.0, x0.copy(), scheduled_events=[ev])
+
+
 @PROP.clause("two_body", strategy=_tb_cases, quick=320, thorough=8000, shards=16)
 def two_body(c, rec):
     """two-body: equals closed-form Kepler, conserves energy and angular momentum, composes over any split, batch and output-grid consistent"""
@@ -77,6 +100,7 @@ def two_body(c, rec):
     k = c["K"]
     f = c["f"]
     dyn = TwoBody(method=c["method"])
+    _earlier_use(dyn, c, x0, rec)
     scale = max(1.0, t_end / 3600.0)
     if k >= 2 or 0.001 < f < 0.999 or len(c["grid"]) >= 3:
         rec.nontrivial([round(c["a"], -2), round(c["e"], 2), round(c["i"], 1), round(math.log10(t_end), 1), k, round(f, 2), c["method"]])
@@ -124,15 +148,15 @@ def two_body(c, rec):
 
 # ------------------------------------------------------------------------------------------------
 def _sp_cases():
-    def mk(t, el, dur, f, shift, deg, order_frac, bodies, srp, gr, meth, k):
-        return {"t": iso(t), **el, "T": dur, "f": f, "shift": shift, "deg": deg, "ord": int(round(order_frac * deg)), "bodies": bodies,
+    def mk(t, el, dur, f, shift, deg, order_frac, bodies, srp, gr, meth, k, hist=0):
+        return {"history": hist, "t": iso(t), **el, "T": dur, "f": f, "shift": shift, "deg": deg, "ord": int(round(order_frac * deg)), "bodies": bodies,
                 "srp": srp, "gr": gr, "method": meth, "K": k}
 
     return st.builds(
         mk, eop_instants(margin_days=12), so.elements(e_cap=0.6, min_perigee_alt=300.0, a_max=45000.0),
         st.sampled_from([30.0, 120.0, 600.0, 1800.0, 1800.0, 7200.0, 21600.0]), st.floats(0.05, 0.95), st.sampled_from([1, 37, 60, 3600, 86400, 86400, 172807, 864000]),
         st.sampled_from([0, 2, 4, 8]), st.floats(0, 1), st.sampled_from([[], ["sun"], ["moon"], ["sun", "moon"], ["sun", "moon", "jupiter"]]),
-        st.booleans(), st.booleans(), st.sampled_from(["RK45", "DOP853"]), st.sampled_from([1, 1, 2, 3]))
+        st.booleans(), st.booleans(), st.sampled_from(["RK45", "DOP853"]), st.sampled_from([1, 1, 2, 3]), st.sampled_from([0, 0, 0, 1, 1, 2]))
 
 
 @PROP.clause("perturbed", strategy=_sp_cases, quick=64, thorough=1600, shards=16)
@@ -155,6 +179,7 @@ def perturbed(c, rec):
     rec.nontrivial([c["t"], round(c["a"], -2), round(c["e"], 2), dur, round(f, 2), c["shift"], c["deg"], tuple(c["bodies"]), c["srp"], c["gr"], k])
     rec.label(c["method"])
     dyn = SpecialPerturbations(datetimeToJulianDate(t), geo, per, 0.02, method=c["method"])
+    _earlier_use(dyn, c, x0, rec)
     t0 = 60.0
     full = dyn.propagate(t0, t0 + dur, x0.copy())
     mid = dyn.propagate(t0, t0 + f * dur, x0.copy())
